@@ -618,6 +618,22 @@ def M_pop_last(ex, n, a):
     return NotImplemented
 
 
+def M_first_entry(ex, n, a):
+    v = recv(a)
+    if isinstance(v, MapV) and v.ordered and v.kind != 'set':
+        if not v.entries: return none()
+        return some(EntryV(v, v.entries[0][0], 0, True))
+    return NotImplemented
+
+
+def M_last_entry(ex, n, a):
+    v = recv(a)
+    if isinstance(v, MapV) and v.ordered and v.kind != 'set':
+        if not v.entries: return none()
+        return some(EntryV(v, v.entries[-1][0], len(v.entries) - 1, True))
+    return NotImplemented
+
+
 def M_clear(ex, n, a):
     v = recv(a)
     if isinstance(v, VecV): v.items.clear(); return UNIT
@@ -1651,7 +1667,7 @@ METHODS = {
     'len': [M_len], 'is_empty': [M_is_empty], 'index': [M_index], 'index_mut': [M_index], 'get': [M_entry_get, M_get], 'get_mut': [M_entry_get, M_get_mut], 'into_mut': [M_entry_get], 'key': [M_entry_key], 'remove_entry': [M_entry_remove, M_remove_entry],
     'contains_key': [M_contains_key], 'contains': [M_contains], 'insert': [M_entry_insert, M_insert], 'remove': [M_entry_remove, M_remove], 'push': [M_push], 'push_back': [M_push],
     'push_front': [M_push_front], 'pop': [M_pop], 'pop_back': [M_pop], 'pop_front': [M_pop_front], 'front': [M_front], 'back': [M_back],
-    'first': [M_first], 'last': [M_last], 'first_key_value': [M_first_key_value], 'last_key_value': [M_last_key_value], 'pop_first': [M_pop_first], 'pop_last': [M_pop_last],
+    'first': [M_first], 'last': [M_last], 'first_key_value': [M_first_key_value], 'last_key_value': [M_last_key_value], 'pop_first': [M_pop_first], 'pop_last': [M_pop_last], 'first_entry': [M_first_entry], 'last_entry': [M_last_entry],
     'split_off': [M_split_off], 'append': [M_append], 'clear': [M_clear], 'truncate': [M_truncate], 'retain': [M_retain], 'retain_mut': [M_retain],
     'iter': [M_iter], 'iter_mut': [M_iter], 'keys': [M_keys], 'values': [M_values], 'values_mut': [M_values], 'into_values': [M_into_values], 'into_keys': [M_into_keys],
     'into_iter': [M_into_iter], 'entry': [M_entry], 'or_default': [M_or_default], 'or_insert': [M_or_insert], 'or_insert_with': [M_or_insert_with],
